@@ -63,6 +63,7 @@ type Case struct {
 	Body    []byte      `json:"body"`
 	Chunks  []int       `json:"chunks"`
 	ErrRead bool        `json:"err_read"` // body ends with an injected error instead of EOF
+	HMsg    int         `json:"hmsg"`     // which text the handler's status carries: 0 plain, 1 bytes that are not UTF-8 (any Go string can be a status message), 2 empty, 3 long
 	HCode   uint32      `json:"hcode"`    // status code the handler returns (0 = OK)
 	HSend   int         `json:"hsend"`    // replies a streaming handler sends
 	HWait   bool        `json:"hwait"`    // the handler outlasts a short deadline: it waits for its context (at most 60 ms) before replying
@@ -198,7 +199,7 @@ func newMux(c Case, hs *hstate) *larking.Mux {
 		if c.HCode == 0 {
 			return nil
 		}
-		return status.Error(codes.Code(c.HCode), "scripted % failure é")
+		return status.Error(codes.Code(c.HCode), []string{"scripted % failure é", "scripted \xff\xfe failure \xc3", "", strings.Repeat("scripted failure ", 300)}[c.HMsg%4])
 	}
 	meta := func(ctx context.Context) {
 		if c.HMeta {
@@ -526,11 +527,13 @@ var hostilePaths = []string{"", "/", "//", "/:", ":", "/c9/:", "/c9/a:b:c", "/c9
 
 var hostileQueries = []string{"", "f_int32=1", "f_int32=x", "nope=1", "r_int32=1&r_int32=2", "r_leaf.count=1", "r_leaf=1", "m_si.key=1", "m_si=1", "m_sl.a.count=1", "nest.leaf.count.x=1", "f_int32.x=1",
 	"o_leaf.count=1&o_string=x", "nest=1", "nest.leaf=1", "ts=x", "ts=2020-01-01T00:00:00Z", "mask=a,b", "w_string=%22", "w_string=\"", "w_bytes=%", "f_bytes=!!", "f_enum=PURPLE", "http_body.data=QQ",
-	"http_body.content_type=x", "=1", "&&&", "a=b=c", "nest..leaf=1", ".=1", "f_string=" + strings.Repeat("x", 300), "%zz=1", "r_string=a&r_string=b&r_string=", "body_leaf.color=7", "f_double=1e999", "f_float=NaN"}
+	"http_body.content_type=x", "=1", "&&&", "a=b=c", "nest..leaf=1", ".=1", "f_string=" + strings.Repeat("x", 300), "%zz=1", "r_string=a&r_string=b&r_string=", "body_leaf.color=7", "f_double=1e999", "f_float=NaN",
+	// values that are not UTF-8: whatever quotes them in an error has to survive every response codec
+	"f_enum=%ff", "f_int32=%80", "ts=%ff%fe", "f_string=%ff%fe", "mask=%ff", "f_bool=%c3", "w_string=%ff", "%ff=1", "nest.%ff=1"}
 
 var headerPool = [][2]string{{"Grpc-Timeout", "20m"}, {"Grpc-Timeout", "5m"}, {"Grpc-Timeout", "1n"}, {"Grpc-Timeout", "0S"}, {"Grpc-Timeout", "99999999H"}, {"Grpc-Timeout", "5s"}, {"Content-Type", "application/x-plain"}, {"Accept", "application/x-plain"}, {"Content-Type", "application/json"}, {"Content-Type", "application/protobuf"}, {"Content-Type", "application/octet-stream"}, {"Content-Type", "google.api.HttpBody"},
 	{"Content-Type", "text/plain"}, {"Content-Type", "application/grpc+json"}, {"Content-Type", "application/grpc+nope"}, {"Content-Type", "application/grpc-web-text+proto"}, {"Content-Type", ""},
-	{"Accept", "google.api.HttpBody"}, {"Accept", "*/*"}, {"Accept", "application/protobuf;q=0.5, */*;q=0"}, {"Accept", ",,,"}, {"Accept-Encoding", "gzip"}, {"Accept-Encoding", "*"},
+	{"Accept", "google.api.HttpBody"}, {"Accept", "*/*"}, {"Accept", "application/protobuf"}, {"Accept", "application/octet-stream"}, {"Accept", "application/protobuf"}, {"Accept", "application/protobuf;q=0.5, */*;q=0"}, {"Accept", ",,,"}, {"Accept-Encoding", "gzip"}, {"Accept-Encoding", "*"},
 	{"Content-Encoding", "gzip"}, {"Content-Encoding", "br"}, {"Content-Encoding", "identity"}, {"Grpc-Encoding", "gzip"}, {"Grpc-Encoding", "nope"}, {"Grpc-Encoding", "identity"},
 	{"Grpc-Timeout", "1S"}, {"Grpc-Timeout", "0n"}, {"Grpc-Timeout", "xx"}, {"Grpc-Timeout", "99999999H"}, {"Twirp-Version", "7"}, {"Upgrade", "websocket"}, {"Upgrade", "h2c"},
 	{"X-Tok-Bin", "AA=="}, {"X-Tok-Bin", "!!"}, {"X-Plain", "v"}, {"Te", "trailers"}, {"Connection", "close"}}
@@ -800,6 +803,7 @@ func genValidish(t *rapid.T) Case {
 		}
 	}
 	c.HCode = rapid.SampledFrom([]uint32{0, 0, 0, 3, 5, 13, 16, 17, 99, 1<<31 - 1}).Draw(t, "hcode")
+	c.HMsg = rapid.SampledFrom([]int{0, 0, 1, 1, 2, 3}).Draw(t, "hmsg")
 	c.HSend = rapid.IntRange(0, 3).Draw(t, "hsend")
 	c.HWait = rapid.IntRange(0, 7).Draw(t, "hwait") == 0
 	c.HMeta = rapid.Bool().Draw(t, "hmeta")
@@ -863,6 +867,7 @@ func genCase(t *rapid.T) Case {
 	}
 	c.ErrRead = rapid.IntRange(0, 7).Draw(t, "errRead") == 0
 	c.HCode = rapid.SampledFrom([]uint32{0, 0, 0, 3, 5, 13, 16, 17, 99, 1<<31 - 1}).Draw(t, "hcode")
+	c.HMsg = rapid.SampledFrom([]int{0, 0, 1, 1, 2, 3}).Draw(t, "hmsg")
 	c.HSend = rapid.IntRange(0, 3).Draw(t, "hsend")
 	c.HWait = rapid.IntRange(0, 7).Draw(t, "hwait") == 0
 	c.HMeta = rapid.Bool().Draw(t, "hmeta")
@@ -877,7 +882,7 @@ func classify(c Case, o outcome) (string, []string) {
 	cl := []string{"entry=" + c.Entry, "stage=" + o.stage, "status=" + sc, fmt.Sprintf("config=%d", c.Config)}
 	key := ""
 	if o.stage != "entry" {
-		key = fmt.Sprintf("%s|%s|%s|%d|%d|%d|%v|%v|%s|%s|%v", c.Entry, o.stage, sc, c.HCode, c.Config, c.HSend, c.HMeta, c.HWait, c.Path, c.Query, c.Headers)
+		key = fmt.Sprintf("%s|%s|%s|%d|%d|%d|%v|%v|%s|%s|%v", c.Entry, o.stage, sc, c.HCode, c.Config, c.HSend, c.HMeta, c.HWait, c.Path, c.Query, c.Headers) + fmt.Sprint(c.HMsg)
 	}
 	return key, cl
 }
